@@ -499,4 +499,5 @@ def run(an: Analysis, rep):
     rep.run(c07.r073, an, shj, enc)
     rep.run(c07.r07a, an, shj, enc)
     rep.run(c07.r07b, an, shj, defs)
+    rep.run(c07.r07r, an, shj)
     rep.stats.update(an.stats([it]))
